@@ -1,8 +1,416 @@
 import GB.Base.Proto
+import GB.C05.Spec
+/-
+  C05 driver: trace validation of one resolver run (one or more polls against one scripted target).
+
+  input :  res lim=<int> only=<0|1> ign=<tok,…> F=<file>… A=<alien file>… P=<poll>…
+             file  = name|pkg|dep,…|msg,…|svc;…          svc = fullname!method!…
+             method= name~in~out~<c><s>~rule^rule…        rule = kind@pattern@body@resp
+             kind  = get|put|post|delete|patch|none|c:<verb>        "-" = empty string
+             poll  = <v1 mode>,<v1alpha mode>|<listed hex,…>|<policy text (Go side only)>
+             mode  = ok | u… (answers Unimplemented somewhere) | x… (fails with another code)
+  output:  per poll:  poll  S=<v1|v1a>:<ok|eNN>  E=<req>><ans> …  R=<result>
+             req = l | s:<name> | f:<name>      ans = L:<hex,…> | F:<id,…> | G:<id,…> | eNN | rNN | oN
+             id  = file name (own file) or @k (k-th alien file)
+             result = ok:<file,…>#<svc;…> | none | err:<code>
+
+  The model is run with the observed answers as its policy and the observed request order as its
+  schedule; it has to issue exactly the observed requests and reach the observed outcome (else DIFF).
+  Independently, the outcome is judged against the specification (VIOL).
+-/
 namespace GB.C05
 open GB GB.Proto
 
-/-- stub: replaced when the C05 slice is built -/
-def handle : Handler := fun _ _ => "BAD c05 unimplemented"
+/-! ### tokens -/
+
+def tok (s : String) : Bytes := if s == "-" then [] else ascii s
+def untok (b : Bytes) : String := if b.isEmpty then "-" else bytesToString b
+
+def splitL (sep : String) (s : String) : List String := if s.isEmpty then [] else s.splitOn sep
+
+/-- split at the first occurrence of `sep` -/
+def splitFirst (sep : String) (s : String) : String × String :=
+  match s.splitOn sep with
+  | [] => ("", "")
+  | [a] => (a, "")
+  | a :: rest => (a, sep.intercalate rest)
+
+def parseRule (s : String) : Option Rule :=
+  match s.splitOn "@" with
+  | [k, p, b, r] =>
+    let p' := tok p
+    let pat : Option Pattern :=
+      if k == "get" then some (.get p') else if k == "put" then some (.put p')
+      else if k == "post" then some (.post p') else if k == "delete" then some (.delete p')
+      else if k == "patch" then some (.patch p') else if k == "none" then some .unset
+      else if k.startsWith "c:" then some (.custom (tok (k.drop 2).toString) p')
+      else none
+    pat.map fun pt => { pattern := pt, body := tok b, responseBody := tok r }
+  | _ => none
+
+def parseMethodD (s : String) : Option DMethod :=
+  match s.splitOn "~" with
+  | [n, i, o, fl, rules] =>
+    let rs := (splitL "^" rules).map parseRule
+    if rs.any Option.isNone then none else
+    let rs' := rs.filterMap id
+    let http : Option HttpRule := match rs' with
+      | [] => none
+      | p :: more => some { primary := p, additional := more }
+    match fl.toList with
+    | [c, sv] => some { name := tok n, input := tok i, output := tok o,
+                        clientStreaming := c == '1', serverStreaming := sv == '1', http := http }
+    | _ => none
+  | _ => none
+
+def parseServiceD (s : String) : Option DService :=
+  match s.splitOn "!" with
+  | [] => none
+  | n :: ms =>
+    let ms' := ms.map parseMethodD
+    if ms'.any Option.isNone then none else some { name := tok n, methods := ms'.filterMap id }
+
+def parseFile (s : String) : Option DFile :=
+  match s.splitOn "|" with
+  | [n, _pkg, deps, msgs, svcs] =>
+    let ss := (splitL ";" svcs).map parseServiceD
+    if ss.any Option.isNone then none else
+    some { name := tok n, deps := (splitL "," deps).map tok, messages := (splitL "," msgs).map tok,
+           services := ss.filterMap id }
+  | _ => none
+
+inductive Mode where | ok | unimpl | broken
+  deriving DecidableEq
+
+def parseMode (s : String) : Option Mode :=
+  match s.toList with
+  | 'o' :: _ => some .ok
+  | 'u' :: _ => some .unimpl
+  | 'x' :: _ => some .broken
+  | _ => none
+
+structure PollIn where
+  m1 : Mode
+  m1a : Mode
+  listed : List Name
+
+def parseHexList (s : String) : Option (List Name) :=
+  let l := (splitL "," s).map parseHex
+  if l.any Option.isNone then none else some (l.filterMap id)
+
+def parsePollIn (s : String) : Option PollIn :=
+  match s.splitOn "|" with
+  | modes :: listed :: _ =>
+    match modes.splitOn ",", parseHexList listed with
+    | [a, b], some l =>
+      match parseMode a, parseMode b with
+      | some x, some y => some { m1 := x, m1a := y, listed := l }
+      | _, _ => none
+    | _, _ => none
+  | _ => none
+
+structure Input where
+  /-- the conversation ran over real gRPC: the service may answer pipelined requests the client no
+      longer reads after an aborting response -/
+  wire : Bool
+  cfg : Cfg
+  own : List DFile
+  alien : List DFile
+  polls : List PollIn
+
+def parseInput (fields : List String) : Except String Input := do
+  let mut lim : Int := 0
+  let mut only := false
+  let mut wire := false
+  let mut ign : List Bytes := []
+  let mut own : List DFile := []
+  let mut alien : List DFile := []
+  let mut polls : List PollIn := []
+  for f in fields do
+    let (k, v) := splitFirst "=" f
+    if k == "res" then pure ()
+    else if k == "lim" then
+      match v.toInt? with
+      | some n => lim := n
+      | none => throw "lim"
+    else if k == "only" then only := v == "1"
+    else if k == "wire" then wire := v == "1"   -- transport used by the harness (fake pool / real gRPC over bufconn)
+    else if k == "ign" then ign := (splitL "," v).map tok
+    else if k == "F" then
+      match parseFile v with
+      | some x => own := own ++ [x]
+      | none => throw "file"
+    else if k == "A" then
+      match parseFile v with
+      | some x => alien := alien ++ [x]
+      | none => throw "alien"
+    else if k == "P" then
+      match parsePollIn v with
+      | some x => polls := polls ++ [x]
+      | none => throw "poll"
+    else throw s!"field {k}"
+  return { wire := wire, cfg := mkCfg lim only ign, own := own, alien := alien, polls := polls }
+
+/-! ### observed conversation -/
+
+structure StreamTr where
+  v : Version
+  connErr : Option Nat
+  events : List Event
+
+structure PollOut where
+  streams : List StreamTr
+  result : String
+
+def lookupFile (inp : Input) (id : String) : Option DFile :=
+  match id.toList with
+  | '@' :: k =>
+    match (String.ofList k).toNat? with
+    | some i => inp.alien[i]?
+    | none => none
+  | _ => inp.own.find? (fun f => f.name == tok id)
+
+def parseAnswer (inp : Input) (s : String) : Option Answer :=
+  match s.toList with
+  | 'L' :: ':' :: r => (parseHexList (String.ofList r)).map Answer.listing
+  | 'F' :: ':' :: r =>
+    let l := (splitL "," (String.ofList r)).map (lookupFile inp)
+    if l.any Option.isNone then none else some (.files (l.filterMap id))
+  | 'G' :: ':' :: r =>
+    let l := (splitL "," (String.ofList r)).map (lookupFile inp)
+    if l.any Option.isNone then none else some (.garbled (l.filterMap id))
+  | 'e' :: r => (String.ofList r).toNat?.map Answer.error
+  | 'r' :: r => (String.ofList r).toNat?.map Answer.error
+  | 'o' :: r => (String.ofList r).toNat?.map Answer.other
+  | _ => none
+
+def parseRequest (s : String) : Option Request :=
+  if s == "l" then some .list
+  else
+    let (k, v) := splitFirst ":" s
+    if k == "s" then some (.symbol (tok v))
+    else if k == "f" then some (.filename (tok v))
+    else none
+
+def parseVersion (s : String) : Option Version :=
+  if s == "v1" then some .v1 else if s == "v1a" then some .v1alpha else none
+
+def parseOutput (inp : Input) (fields : List String) : Except String (List PollOut) := do
+  let mut polls : List PollOut := []
+  let mut cur : Option PollOut := none
+  for f in fields do
+    if f == "poll" then
+      if let some p := cur then polls := polls ++ [p]
+      cur := some { streams := [], result := "" }
+    else
+      let (k, v) := splitFirst "=" f
+      match cur with
+      | none => throw "field before poll"
+      | some p =>
+        if k == "S" then
+          let (vs, r) := splitFirst ":" v
+          match parseVersion vs with
+          | none => throw "version"
+          | some ver =>
+            let ce : Option Nat := if r == "ok" then none else ((r.drop 1).toString.toNat?).orElse (fun _ => some 2)
+            cur := some { p with streams := p.streams ++ [{ v := ver, connErr := ce, events := [] }] }
+        else if k == "E" then
+          let (q, a) := splitFirst ">" v
+          match parseRequest q, parseAnswer inp a, p.streams.reverse with
+          | some q', some a', last :: before =>
+            cur := some { p with streams := before.reverse ++ [{ last with events := last.events ++ [(q', a')] }] }
+          | _, _, _ => throw s!"event {v}"
+        else if k == "R" then cur := some { p with result := v }
+        else throw s!"out field {k}"
+  if let some p := cur then polls := polls ++ [p]
+  return polls
+
+/-! ### rendering (canonical text shared with the Go side) -/
+
+def showBinding (b : Binding) : String :=
+  s!"{untok b.httpMethod}@{untok b.pattern}@{untok b.requestBodyPath}@{untok b.responseBodyPath}"
+
+def showMethod (m : Method) : String :=
+  let fl := (if m.clientStreaming then "1" else "0") ++ (if m.serverStreaming then "1" else "0")
+  s!"{untok m.rpcName}~{untok m.input}~{untok m.output}~{fl}~{"^".intercalate (m.bindings.map showBinding)}"
+
+def showService (s : Service) : String :=
+  "!".intercalate (untok s.name :: s.methods.map showMethod)
+
+def showServices (l : List Service) : String :=
+  ";".intercalate ((sortBy (fun a b => bytesLe a.name b.name) l).map showService)
+
+def showFileNames (l : List Name) : String := ",".intercalate ((sortBy bytesLe l).map untok)
+
+def showOutcome : Outcome → String
+  | .update t => s!"ok:{showFileNames (fileNames t.files)}#{showServices t.services}"
+  | .unchanged => "none"
+  | .error e => s!"err:{e.code}"
+
+/-! ### the model driven by the observed conversation -/
+
+def mismatch : Answer := .other 99
+
+def oraclePol (evs : List Event) : Policy := fun h q =>
+  match evs[h.length]? with
+  | some (q', a) => if q' = q then a else mismatch
+  | none => mismatch
+
+def isPermB (a b : List Name) : Bool :=
+  a.length == b.length && a.all (· ∈ b) && b.all (· ∈ a)
+
+/-- the order in which this round's requests were observed; a round that aborted early shows only a
+    prefix of it, the unobserved rest is appended in the model's own order -/
+def oracleSched (evs : List Event) : Sched := fun h l =>
+  let cand := ((evs.drop h.length).take l.length).filterMap fun e =>
+    match e.1 with
+    | .filename n => some n
+    | _ => none
+  if nodupB cand && cand.all (· ∈ l) then cand ++ l.filter (· ∉ cand) else l
+
+def endpointOf (p : PollOut) (v : Version) : Endpoint :=
+  match p.streams.find? (fun s => s.v == v) with
+  | some s => { connErr := s.connErr, pol := oraclePol s.events, sched := oracleSched s.events }
+  | none => { connErr := some 999, pol := fun _ _ => mismatch, sched := fun _ l => l }
+
+/-- the model's conversation ended with an aborting response -/
+def abortedAt (h : History) : Bool :=
+  match h.reverse.head? with
+  | some (_, .error _) => true
+  | some (_, .other _) => true
+  | _ => false
+
+def logMatches (wire : Bool) (log : PollLog) (p : PollOut) : Bool :=
+  log.length == p.streams.length &&
+  (log.zip p.streams).all fun (l, s) =>
+    l.1 == s.v && (match l.2, s.connErr with
+      | none, some _ => true
+      | some h, none => h == s.events || (wire && abortedAt h && h.isPrefixOf s.events)
+      | _, _ => false)
+
+/-! ### the specification judged on the observed conversation -/
+
+/-- all files the target returned on a stream -/
+def returnedFiles (evs : List Event) : List DFile :=
+  evs.flatMap fun e => match e.2 with
+    | .files fs => fs
+    | _ => []
+
+def conformantEvent (own : List DFile) (listed : List Name) (e : Event) : Bool :=
+  match e with
+  | (.list, .listing l) => l == listed
+  | (.symbol n, .files fs) => fs.all (· ∈ own) && fs.any (fun f => decide (definesService f n))
+  | (.filename n, .files fs) => fs.all (· ∈ own) && n ∈ fileNames fs
+  | _ => false
+
+def focusedEvent (own : List DFile) (e : Event) : Bool :=
+  match e with
+  | (.symbol n, .files fs) =>
+    let roots := fileNames (own.filter fun f => decide (definesService f n))
+    fs.all fun g => g.name ∈ reachB own roots
+  | (.filename n, .files fs) => fs.all fun g => g.name ∈ reachB own [n]
+  | _ => true
+
+def specRoots (cfg : Cfg) (own : List DFile) (listed : List Name) : List Name :=
+  let names := specNames cfg listed
+  fileNames (own.filter fun f => f.services.any fun s => s.name ∈ names)
+
+/-- breadth-first import depth of the wanted services' files fits the limit -/
+def depthFits (cfg : Cfg) (own : List DFile) (listed : List Name) : Bool :=
+  let roots := specRoots cfg own listed
+  (reachB own roots).all (· ∈ withinB own roots cfg.limit)
+
+def servicesPart (result : String) : String := (splitFirst "#" result).2
+
+/-- success must be exact: names, content, closed file set -/
+def judgeSuccess (inp : Input) (s : StreamTr) (result : String) : Option String :=
+  let body := (result.drop 3).toString      -- after "ok:"
+  let (filesS, svcsS) := splitFirst "#" body
+  let delivered := (splitL "," filesS).map tok
+  let ret := dedupFiles [] (returnedFiles s.events)   -- of two different files with one name the first counts
+  match s.events.head? with
+  | some (.list, .listing raw) =>
+    let names := sortBy bytesLe (specNames inp.cfg raw)
+    let regFiles := ret.filter (fun f => f.name ∈ delivered)
+    let expect := names.map fun n =>
+      if inp.cfg.onlyServices then ({ name := n, methods := [] } : Service) else contractOf regFiles n
+    if ";".intercalate (expect.map showService) ≠ svcsS then
+      some s!"services differ from the target's descriptors: want {";".intercalate (expect.map showService)}"
+    else if !nodupB delivered then some "duplicate file in the delivered registry"
+    else if !(delivered.all fun d => d ∈ fileNames ret) then some "delivered file was never sent by the target"
+    else if !(regFiles.all fun f => f.deps.all (· ∈ delivered)) then some "delivered file set is not closed under imports"
+    else if !inp.cfg.onlyServices && !(names.all fun n => (findService ret n).isNone || (findService regFiles n).isSome) then
+      some "a service the target described was delivered without its definition"
+    else none
+  | _ => some "success without a ListServices answer"
+
+structure JState where
+  st : RState
+  lastOk : Option String        -- services part of the last delivered description
+
+def judgePoll (inp : Input) (pin : PollIn) (p : PollOut) (js : JState) : JState × String × String :=
+  -- returns new state, verdict ("" = fine so far / "DIFF …" / "VIOL …") and a branch tag
+  let (st', out, log) := resolveFixed inp.cfg (endpointOf p) js.st
+  let modelOut := showOutcome out
+  let isOk := p.result.startsWith "ok:"
+  let okStream := p.streams.reverse.head?
+  -- specification, part 1: whatever the target did, a delivered description is never partial
+  let v1 : Option String :=
+    if isOk then
+      match okStream with
+      | some s => judgeSuccess inp s p.result
+      | none => some "success without a stream"
+    else none
+  -- specification, part 2: a well-formed target answering conformantly must be resolved
+  let cfg := inp.cfg
+  let names := specNames cfg pin.listed
+  let wf := wfFilesB inp.own && names.all fun n => (findService inp.own n).isSome
+  let modesFine := (pin.m1 == .ok || pin.m1a == .ok) && pin.m1 != .broken && pin.m1a != .broken
+  let conf := p.streams.all fun s => s.connErr.isSome ||
+    (match s.events.head? with
+     | some (.list, .error _) => true      -- the method answered Unimplemented: judged by `modesFine`
+     | _ => s.events.all (conformantEvent inp.own pin.listed))
+  let focused := p.streams.all fun s => s.events.all (focusedEvent inp.own)
+  let fits := cfg.onlyServices || inp.own.length ≤ cfg.limit || (focused && depthFits cfg inp.own pin.listed)
+  let must := wf && modesFine && conf && fits
+  let expectSvcs := ";".intercalate ((sortBy bytesLe names).map fun n =>
+    showService (if cfg.onlyServices then { name := n, methods := [] } else contractOf inp.own n))
+  let v2 : Option String :=
+    if !must then none
+    else if isOk then
+      if servicesPart p.result == expectSvcs then none else some s!"conformant target resolved to a different description: want {expectSvcs}"
+    else if p.result == "none" then
+      if js.lastOk == some expectSvcs then none else some "conformant target: no description delivered although none equal to it was delivered before"
+    else some s!"conformant well-formed target rejected ({p.result})"
+  let lastOk := if isOk then some (servicesPart p.result) else js.lastOk
+  let js' : JState := { st := st', lastOk := lastOk }
+  let branch := (if must then "must-" else "free-") ++
+    (if isOk then "ok" else if p.result == "none" then "none" else "err") ++ s!"-s{p.streams.length}"
+  match v1, v2 with
+  | some r, _ => (js', s!"VIOL {r}", branch)
+  | none, some r => (js', s!"VIOL {r}", branch)
+  | none, none =>
+    if modelOut ≠ p.result then (js', s!"DIFF model={modelOut}", branch)
+    else if !logMatches inp.wire log p then (js', "DIFF model issues different requests", branch)
+    else (js', "", branch)
+
+def handle : Handler := fun inF outF =>
+  match parseInput inF with
+  | .error e => s!"BAD input {e}"
+  | .ok inp =>
+    match parseOutput inp outF with
+    | .error e => s!"BAD output {e}"
+    | .ok polls =>
+      if polls.length ≠ inp.polls.length then
+        if outF.head? == some "PANIC" then "VIOL panic" else "BAD poll count"
+      else
+        let rec go (ps : List (PollIn × PollOut)) (js : JState) (branches : List String) (nt : Bool) : String :=
+          match ps with
+          | [] => "OK" ++ (if nt then " nt" else "") ++ " b=" ++ "+".intercalate branches
+          | (pin, p) :: rest =>
+            let (js', verdict, br) := judgePoll inp pin p js
+            if verdict ≠ "" then verdict ++ s!" [poll {branches.length}]"
+            else go rest js' (branches ++ [br]) (nt || p.streams.any (fun s => s.events.length ≥ 2))
+        go (inp.polls.zip polls) { st := initState, lastOk := none } [] false
 
 end GB.C05
